@@ -35,12 +35,14 @@ type c16Op struct {
 	Sig       string `json:"sig"`       // A | B | A-upper | A-64 | A-66 | empty | garbage | A-malleated | A-other-msg | A-v27
 }
 
-func (o c16Op) String() string { return fmt.Sprintf("submit(%s proves %s with %s)", o.Submitter, o.Account, o.Sig) }
+func (o c16Op) String() string {
+	return fmt.Sprintf("submit(%s proves %s with %s)", o.Submitter, o.Account, o.Sig)
+}
 
 type c16World struct {
-	w    *world.World
-	root sdk.Context
-	ms   vauthtypes.MsgServer
+	w             *world.World
+	root          sdk.Context
+	ms            vauthtypes.MsgServer
 	R, E, P, A, B *world.Acct
 }
 
